@@ -47,6 +47,8 @@ def gen_input(rng, c, max_lines=12, max_len=6):
 def gen_needles(rng, c, multi_line=False):
     """(anchored, bytes, real) list"""
     al = [b for b in alphabet(c) if b != 13]
+    if c["crlf"] and rng.random() < 0.3:
+        al = al + [13]         # a needle may contain the \r that CRLF mode strips from the line
     ltb = c["ltbyte"]
     ns = []
     for _ in range(rng.choice([1, 1, 2])):
@@ -88,3 +90,50 @@ def describe(case):
     c = case["cfg"]
     return dict(cfg={k: v for k, v in c.items()}, needles=[(a, b.decode("latin1"), r) for a, b, r in case["needles"]],
                 confirm=case["confirm"], lt_mode=case["lt_mode"], input=case["input"].decode("latin1"))
+
+
+def _cfg(**kw):
+    c = dict(crlf=False, ltbyte=10, invert=False, after=0, before=0, passthru=False, line_number=True,
+             stop_on_nonmatch=False, multi_line=False)
+    c.update(kw)
+    return c
+
+
+def regress_cases(multi_line=False):
+    """the witnesses of the repaired defects of the searcher family; they run before the generated cases so that a
+    repaired defect that returns is reported whatever the seed"""
+    if not multi_line:
+        out = []
+        for lt_mode in (1, 0, 2):
+            for confirm in (True, False):
+                # D10: inverted fast path stepped over the line that ends a --stop-on-nonmatch search
+                out.append(dict(cfg=_cfg(invert=True, stop_on_nonmatch=True), needles=[(False, b"x", True)], confirm=confirm,
+                                lt_mode=lt_mode, input=b"a\nx\nb\nx\nc\n"))
+                out.append(dict(cfg=_cfg(invert=True, stop_on_nonmatch=True, after=1, before=1), needles=[(False, b"x", True)],
+                                confirm=confirm, lt_mode=lt_mode, input=b"a\na\nx\nb\nx\nc\n"))
+                # D9 / D1: CRLF mode, a bare-LF line and an empty needle (matches between \r and \n of a raw buffer)
+                out.append(dict(cfg=_cfg(crlf=True), needles=[(False, b"", True)], confirm=confirm, lt_mode=lt_mode,
+                                input=b"abc\nxyz\r\n"))
+                out.append(dict(cfg=_cfg(crlf=True, passthru=True), needles=[(False, b"c", True)], confirm=confirm,
+                                lt_mode=lt_mode, input=b"abc\nxyz\r\nc\r\n"))
+                out.append(dict(cfg=_cfg(crlf=True), needles=[(False, b"\r", True)], confirm=confirm, lt_mode=lt_mode,
+                                input=b"a\r\nbb\r\n"))
+                out.append(dict(cfg=_cfg(crlf=True, invert=True), needles=[(False, b"b\r", True)], confirm=confirm,
+                                lt_mode=lt_mode, input=b"a\r\nbb\r\nb\n"))
+            out.append(dict(cfg=_cfg(crlf=True), needles=[(False, b"c\n", True)], confirm=False, lt_mode=0,
+                            input=b"abc\nxyz\r\n"))
+        return out
+    out = []
+    for passthru in (False, True):
+        for after in (0, 1):
+            # D6: a needle anchored after the terminator (look-behind) must see the byte before the resumption point
+            out.append(dict(cfg=_cfg(multi_line=True, passthru=passthru, after=after),
+                            needles=[(False, b"a", True), (True, b"b\nc", True)], confirm=False, lt_mode=0, input=b"ab\nc\n"))
+            # D7: stop answers during the final flush (last match and the context just before it)
+            out.append(dict(cfg=_cfg(multi_line=True, passthru=passthru, after=after, before=1),
+                            needles=[(False, b"a\n", True)], confirm=False, lt_mode=0, input=b"x\na\n"))
+            out.append(dict(cfg=_cfg(multi_line=True, passthru=passthru, after=after, before=1),
+                            needles=[(False, b"a", True)], confirm=False, lt_mode=0, input=b"x\na"))
+            out.append(dict(cfg=_cfg(multi_line=True, passthru=passthru, invert=True, after=after),
+                            needles=[(False, b"a\n", True)], confirm=False, lt_mode=0, input=b"a\nb\nc\n"))
+    return out
